@@ -8,7 +8,7 @@ from .c04 import norm_lark, norm_ref
 ID = 'C03'
 LEVEL = 'exploration'
 RULE = ('every grammar of the SHAPE family (EBNF operators x helper spelled a/_a/?a/!a/template, aliases, kept/filtered/'
-        'anonymous tokens) x keep_all_tokens x maybe_placeholders x 6 engine/lexer pairs x every input up to the bound; the '
+        'anonymous tokens) x keep_all_tokens x maybe_placeholders x 6 engine/lexer pairs (+ earley and cyk with ambiguity=explicit on inputs with one derivation) x every input up to the bound; the '
         'returned tree must be in {shape(d) | d reference derivation} (a singleton = engine agreement on the unique tree). '
         'Non-trivial = accepted input of length >= 1 whose tree was compared; distinct (grammar, options, engine, input) by '
         'construction')
@@ -18,7 +18,10 @@ ASSUMPTIONS = ['reference derivations + shaping function written from docs/tree_
 DEADLINE = {'quick': 900, 'thorough': 4 * 3600}
 
 ENGINES = (('earley', 'basic'), ('earley', 'dynamic'), ('earley', 'dynamic_complete'),
-           ('lalr', 'basic'), ('lalr', 'contextual'), ('cyk', 'basic'))
+           ('lalr', 'basic'), ('lalr', 'contextual'), ('cyk', 'basic'),
+           # ambiguity='explicit' selects other tree-builder classes (ChildFilter instead of ChildFilterLALR*); judged on the
+           # inputs with exactly one derivation, where the answer must be that derivation's tree (the rest is C04's)
+           ('earley', 'basic', 'explicit'), ('cyk', 'basic', 'explicit'))
 
 
 from ..gram import Rule, Term, Grammar     # noqa: E402
@@ -133,14 +136,18 @@ def check(g, gi, boxname, b, inputs, res, only=None):
             want = {w: (None if D is None else {norm_ref(refsem.shape(d, gref, w, keep_all, ph), same) for d in D})
                     for w, D in derivs.items()}
             may_fail = None
-            for parser, lexer in ENGINES:
-                if only and (only['parser'], only['lexer']) != (parser, lexer):
+            for parser, lexer, *amb in ENGINES:
+                if only and (only['parser'], only['lexer'], only.get('ambiguity')) != (parser, lexer, amb[0] if amb else None):
                     continue
                 opts = dict(parser=parser, lexer=lexer, keep_all_tokens=keep_all, maybe_placeholders=ph)
+                if amb:
+                    opts['ambiguity'] = amb[0]
                 r = larkio.build(gtext, timeout=6 if parser == 'cyk' else 10, **opts)
                 res['evals'] += 1
                 cfg = {'box': boxname, 'gidx': gi, 'grammar': gtext, 'parser': parser, 'lexer': lexer,
                        'keep_all_tokens': keep_all, 'maybe_placeholders': ph}
+                if amb:
+                    cfg['ambiguity'] = amb[0]
                 if r[0] != 'ok':
                     if parser == 'cyk':
                         res['counters']['unsupported: cyk refuses grammar / construction timeout'] += 1
@@ -163,6 +170,8 @@ def check(g, gi, boxname, b, inputs, res, only=None):
                     if W is None:
                         res['counters']['skipped: more than 256 derivations'] += 1
                         continue
+                    if amb and len(derivs[w]) != 1:
+                        continue
                     case = dict(cfg, input=w)
                     pr = larkio.parse(p, w)
                     res['evals'] += 1
@@ -180,6 +189,10 @@ def check(g, gi, boxname, b, inputs, res, only=None):
                                                 'expected': 'UnexpectedInput', 'observed': repr(pr[1])[:200]})
                         continue
                     got = norm_lark(obs.canon(pr[1]), named)
+                    if amb and "'_ambig'" in repr(got):
+                        # one reference derivation, several lark derivations (EBNF operators splitting the same tokens): C04's
+                        res['counters']['explicit engines: answer is an _ambig node (judged by C04)'] += 1
+                        continue
                     if w:
                         res['nontrivial'] += 1
                     if got not in W:
